@@ -98,6 +98,7 @@ func build(p *program, minPages, maxPages uint32, consts *[2]uint32, kind string
 type bopt struct {
 	narrow [2]bool
 	impMem bool
+	wrap   bool // both addresses pass through i64 (upper half set to a marker) and i32.wrap_i64 inside the function
 }
 
 var narrowCell = [2]uint32{32, 40}
@@ -139,6 +140,11 @@ func buildOpt(p *program, minPages, maxPages uint32, consts *[2]uint32, kind str
 			restore := int32(pat(int64(c))) | int32(pat(int64(c)+1))<<8
 			b = append(b, wb.Cat(wb.I32Const(int32(c)), wasm.OpcodeI32Load16S, wb.MemArg(1, 0), wb.LocalSet(uint32(i)),
 				wb.I32Const(int32(c)), wb.I32Const(restore), wasm.OpcodeI32Store16, wb.MemArg(1, 0))...)
+		}
+	}
+	if o.wrap {
+		for i := uint32(0); i < 2; i++ {
+			b = append(b, wb.Cat(wb.LocalGet(i), wasm.OpcodeI64ExtendI32U, wb.I64Const(-0x2152411100000000), wasm.OpcodeI64Or, wasm.OpcodeI32WrapI64, wb.LocalSet(i))...)
 		}
 	}
 	depth := 0
@@ -560,7 +566,8 @@ func runProgram(id int, raw json.RawMessage) common.Result {
 				for _, v := range []struct {
 					name string
 					o    bopt
-				}{{"narrow", bopt{narrow: mask}}, {"param-impmem", bopt{impMem: true}}, {"narrow-impmem", bopt{narrow: mask, impMem: true}}} {
+				}{{"narrow", bopt{narrow: mask}}, {"param-impmem", bopt{impMem: true}}, {"narrow-impmem", bopt{narrow: mask, impMem: true}},
+					{"wrap", bopt{wrap: true}}, {"wrap-impmem", bopt{wrap: true, impMem: true}}} {
 					if strings.HasPrefix(v.name, "narrow") && !mask[0] && !mask[1] {
 						continue
 					}
